@@ -558,6 +558,35 @@ class Gen:
                 {'op': 'service_add_interface', 'service': a, 'name': x, 'node_id': self.maybe_id('p'), 'itype': 'TrunkPort', 'kw': {}},
                 {'op': 'service_add_interface', 'service': b, 'name': x, 'node_id': self.maybe_id('p'), 'itype': 'TrunkPort', 'kw': {}}]
 
+    def derived_link_name_macro(self):
+        """connect_interface() derives '<node>-<iface>-link': (a) a plain link carrying that name exists first; (b) two same-named
+        sub-interfaces under two ports of one node are connected to two DIFFERENT services."""
+        tm = tm_of(self.topo)
+        top = tm.top_services()
+        free = [x for x in self.iface_refs(tm, only_free=True, with_subs=False)]
+        if self.substrate or len(top) < 2:
+            return []
+        r = self.rng
+        if r.random() < 0.5 and len(free) >= 3:
+            t0, l1, l2 = r.sample(free, 3)
+            return [{'op': 'add_link', 'name': f'{t0[0][0]}-{t0[0][1]}-link', 'node_id': None, 'ltype': 'Patch', 'interfaces': [l1[0], l2[0]]},
+                    {'op': 'connect_interface', 'service': tm.name(r.choice(top)), 'iface': t0[0]}]
+        by_node = {}
+        for ref, i in free:
+            if tm.typ(i) == 'DedicatedPort':
+                by_node.setdefault(ref[0], []).append(ref)
+        pairs = [v for v in by_node.values() if len(v) >= 2]
+        if not pairs:
+            return []
+        a, b = r.sample(r.choice(pairs), 2)
+        x = self.fresh('sub')
+        sa, sb = r.sample(top, 2)
+        v = r.randrange(3000, 3900)
+        return [{'op': 'add_child_interface', 'iface': a, 'name': x, 'node_id': None, 'kw': {'labels': {'vlan': str(v)}}},
+                {'op': 'add_child_interface', 'iface': b, 'name': x, 'node_id': None, 'kw': {'labels': {'vlan': str(v)}}},
+                {'op': 'connect_interface', 'service': tm.name(sa), 'iface': a + [x]},
+                {'op': 'connect_interface', 'service': tm.name(sb), 'iface': b + [x]}]
+
     def next_op(self):
         if getattr(self, 'pending', None):
             return self.pending.pop(0)
@@ -565,8 +594,10 @@ class Gen:
             m = self.rng.random()
             if m < 0.25 and getattr(self, 'ambiguous_names_ok', False):
                 self.pending = self.same_named_ifaces_macro()
+            elif m < 0.45:
+                self.pending = self.derived_link_name_macro()
             else:
-                self.pending = self.recycle_name_macro() if m < 0.7 else self.two_handles_macro()
+                self.pending = self.recycle_name_macro() if m < 0.8 else self.two_handles_macro()
             if self.pending:
                 return self.pending.pop(0)
         op = self._next_op()
